@@ -27,7 +27,7 @@ RULE = ('random message sequences (all 4 types, both byte orders, random header-
 STATE_MEASURE = 'distinct (role, boundary-class multiset, messages-per-read profile) tuples'
 PROBES = ['cut-in-fixed-header', 'cut-in-handshake-line', 'join-handshake-and-message',
           'many-messages-one-read', 'crlf-in-binary', 'big-endian-message', 'one-byte-reads', 'neighbour-connection-interleaved',
-          'neighbour-lost-mid-stream']
+          'neighbour-lost-mid-stream', 'neighbour-poisoned']
 COMPONENTS = {
     'real': ['txdbus.protocol.BasicDBusProtocol.dataReceived/rawDBusMessageReceived',
              'txdbus.authentication.ClientAuthenticator', 'txdbus.authentication.BusAuthenticator',
@@ -268,16 +268,26 @@ def scenario(ctx):
             conn2.attach(proto2, DumbPeer('tx2'))
             for h in hs2:
                 conn2.b.write(h)
-            for m in msgs2:
-                conn2.b.write(m.raw)
+            # the neighbour's stream may hold a message that cannot be decoded (it costs the
+            # neighbour its connection; what followed it in the same read concerns nobody else)
+            poison_at = ds.choose(len(msgs2)) if len(msgs2) > 1 and ds.flag(0.4) else None
+            for i2, m in enumerate(msgs2):
+                if i2 == poison_at:
+                    raw = bytearray(m.raw)
+                    raw[1] = 9
+                    conn2.b.write(bytes(raw))
+                    sim.probe('neighbour-poisoned')
+                else:
+                    conn2.b.write(m.raw)
             nb = {'pipe': conn2.pipes[1], 'back': conn2.pipes[0], 'proto': proto2, 'rec': rec2,
-                  'msgs': msgs2, 'conn': conn2, 'lost': False,
+                  'msgs': msgs2, 'conn': conn2, 'lost': False, 'poisoned': poison_at is not None,
                   'lose_at': ds.choose(conn2.pipes[1].total) if ds.flag(0.3) else None}
 
         def neighbour_read(everything=False):
             p2 = nb['pipe']
             while p2.buf and nb['proto'].transport.state == net.OPEN and not nb['lost']:
-                n2 = len(p2.buf) if everything and nb['lose_at'] is None else 1 + ds.choose(min(len(p2.buf), 40))
+                n2 = len(p2.buf) if (everything and nb['lose_at'] is None) or (nb['poisoned'] and ds.flag(0.5)) \
+                    else 1 + ds.choose(min(len(p2.buf), 40))
                 if nb['lose_at'] is not None and p2.base + n2 >= nb['lose_at']:
                     # lost with a message half received
                     n2 = max(1, nb['lose_at'] - p2.base)
@@ -289,6 +299,11 @@ def scenario(ctx):
                         t.do_lose()
                 else:
                     e2 = net.deliver(sim, p2, n2)
+                if e2 is not None and nb['poisoned']:
+                    nb['lost'] = True
+                    for t in net.losable(sim):
+                        t.do_lose()
+                    break
                 if e2 is not None:
                     raise Violation('C04/exception', exc_key(e2), 'exception escaped dataReceived of '
                                     'the neighbour connection: %r' % (e2,))
@@ -315,7 +330,7 @@ def scenario(ctx):
         sim.state((role, tuple(sorted(set(classes))), min(steps, 50) // 5))
         if nb is not None and err is None:
             neighbour_read(everything=True)
-            if not nb['lost']:
+            if not nb['lost'] and not nb['poisoned']:
                 if nb['proto'].transport.state != net.OPEN or nb['rec']['raw'] != [m.raw for m in nb['msgs']]:
                     raise Violation('C04/sequence', 'neighbour',
                                     'the neighbour connection got %d of its %d messages intact'
